@@ -45,7 +45,87 @@ def spec_ndim(spec):
     return len(spec['data'][1]) if spec['kind'] == 'reg' else len(spec['data'])
 
 
+def gen_pyth_spec(rng):
+    """A Cartesian 2-D grid all of whose points have a rational distance from the origin (multiples of
+    Pythagorean pairs, points on the axes, the origin), so that the exact conversion model is defined on
+    every point; any kind of coordinates."""
+    t = float(rng.choice([1.0, 0.5, 2.0, 0.25, 1.5]))
+    a, b, _ = G.PYTH[int(rng.integers(0, len(G.PYTH)))]
+    if rng.random() < 0.5:
+        a, b = b, a
+    kind = str(rng.choice(['uns', 'uns', 'sep', 'reg']))
+    if kind == 'uns':
+        pts = []
+        for _ in range(int(rng.integers(1, 9))):
+            r = rng.random()
+            if r < 0.15:
+                pts.append((0.0, 0.0))
+            elif r < 0.35:
+                v = float(rng.choice([-3.0, -1.0, 0.5, 2.0, 4.0])) * t
+                pts.append((v, 0.0) if rng.random() < 0.5 else (0.0, v))
+            else:
+                aa, bb, _ = G.PYTH[int(rng.integers(0, len(G.PYTH)))]
+                k = float(rng.choice([1.0, 0.5, 2.0, 0.25])) * float(rng.choice([-1.0, 1.0]))
+                sg = float(rng.choice([-1.0, 1.0]))
+                pts.append((aa * k, bb * k * sg) if rng.random() < 0.5 else (bb * k, aa * k * sg))
+        data = [[p[0] for p in pts], [p[1] for p in pts]]
+    elif kind == 'sep':
+        r = rng.random()
+        if r < 0.4:
+            data = [[-a * t, 0.0, a * t][int(rng.integers(0, 2)):], [-b * t, 0.0, b * t][:int(rng.integers(2, 4))]]
+        elif r < 0.7:
+            data = [[float(v) * t for v in rng.integers(-4, 5, size=int(rng.integers(2, 6)))], [0.0]]
+        else:
+            data = [[a * t, -a * t], [b * t, -b * t, 0.0]]
+    else:
+        r = rng.random()
+        if r < 0.5:
+            data = [[a * t, b * t], [3, 3], [-a * t, -b * t]]
+        elif r < 0.75:
+            data = [[-a * t, b * t], [2, 3], [a * t, -b * t]]
+        else:
+            data = [[0.5 * t, 1.0], [int(rng.integers(1, 7)), 1], [float(rng.choice([-1.0, 0.0, 0.25])), 0.0]]
+    w = None if rng.random() < 0.7 else 0.5
+    return {'sys': 'c', 'kind': kind, 'data': data, 'w': w, 'int': False, 'lowbits': False, 'pyth': True}
+
+
 def gen_history(rng, big):
+    if rng.random() < 0.12:
+        return gen_pyth_history(rng, big)
+    return gen_history0(rng, big)
+
+
+def gen_pyth_history(rng, big):
+    """conversion-heavy history on a grid with Pythagorean points: only operations that keep every radius
+    rational (isotropic scale of either sign, reverse, rotation by Pythagorean angles, copies) on the Cartesian
+    grids; the polar grids that `as_` produces take part in every operation"""
+    spec = gen_pyth_spec(rng)
+    ops = [['new', spec]]
+    meta = ['c']
+    for _ in range(int(rng.integers(3, 8 if not big else 11))):
+        i = int(rng.integers(0, len(meta)))
+        if meta[i] == 'c':
+            op = str(rng.choice(['as', 'as', 'as', 'scale', 'scaled', 'reverse', 'reversed', 'rotate', 'rotated', 'copy', 'mat']))
+        else:
+            op = str(rng.choice(['as', 'as', 'scale', 'scaled', 'reverse', 'reversed', 'protate', 'copy']))
+        if len(meta) >= MAXLIVE and op in NONMUT:
+            op = {'scaled': 'scale', 'reversed': 'reverse', 'rotated': 'rotate', 'copy': 'reverse', 'as': 'reverse'}[op]
+        if op in ('scale', 'scaled'):
+            vals = [2.0, 0.5, 1.5, 4.0, 3.0] + ([-2.0, -1.0, -0.5] if meta[i] == 'c' else [])
+            ops.append([op, i, ['s', float(rng.choice(vals)), str(rng.choice(G.SCALAR_FORMS))]])
+        elif op in ('rotate', 'rotated', 'protate'):
+            c, s_ = G.gen_angle(rng)
+            ops.append([op, i, {'c': G.fr(c), 's': G.fr(s_)}])
+        else:
+            ops.append([op, i])
+        if op == 'as':
+            meta.append('p' if meta[i] == 'c' else 'c')
+        elif op in NONMUT:
+            meta.append(meta[i])
+    return {'family': 'history', 'ops': ops, 'pyth': True}
+
+
+def gen_history0(rng, big):
     maxn = 6 if not big else int(rng.choice([6, 12, 30]))
     spec = G.gen_spec(rng, maxn=maxn)
     if spec['sys'] == 'p':
@@ -236,6 +316,55 @@ def model_history_lines(case):
         elif kind in FROM_IMPL:
             lines.append('IMPL')
     return lines
+
+
+def conv_query(st):
+    """The model request that runs the executable conversion on the source grid's current value
+    (before the implementation's result enters the store), and the real points it must reproduce."""
+    op = st['op']
+    src = st['before'][op[1]]
+    if src['points'].shape[1] != 2:
+        return None
+    if src['sys'] == 'c':
+        return 'C11 aspolar %d' % op[1]
+    th = src['points'][:, 1]
+    return 'C11 ascart %d %s %s' % (op[1], rat_list([float(v) for v in np.cos(th)]), rat_list([float(v) for v in np.sin(th)]))
+
+
+def compare_conv(ans, st):
+    """None, or a description of the first difference between the executable conversion model and the
+    grid `as_()` returned.  Second value: (points compared exactly defined, points outside the exact model)."""
+    op = st['op']
+    src = st['before'][op[1]]
+    real = st['after'][-1]['points']
+    if not ans.startswith('ok'):
+        return 'model answered %r' % ans, (0, 0)
+    body = ans.split(' ', 1)[1] if ' ' in ans else '-'
+    mp = parse_rat_lists(body)
+    if len(mp) != len(real):
+        return 'number of points %d vs %d' % (len(mp), len(real)), (0, 0)
+    exact = skipped = 0
+    for k, (m, r) in enumerate(zip(mp, real)):
+        if src['sys'] == 'c':
+            if len(m) == 0:
+                skipped += 1
+                continue
+            exact += 1
+            rr, c, s_ = [float(x) for x in m]
+            if abs(r[0] - rr) > G.TOL * max(1.0, rr):
+                return 'point %d: radius %r vs hypot %r' % (k, float(r[0]), rr), (exact, skipped)
+            if rr == 0:
+                continue        # the origin: every angle names the same point (arctan2 of signed zeros gives 0, ±pi)
+            want = math.atan2(s_, c)
+            d = (float(r[1]) - want + math.pi) % (2 * math.pi) - math.pi
+            if abs(d) > G.TOL:
+                return 'point %d: angle %r vs direction (%r, %r)' % (k, float(r[1]), c, s_), (exact, skipped)
+        else:
+            exact += 1
+            scale = max(1.0, float(np.max(np.abs(real))))
+            if abs(r[0] - float(m[0])) > G.TOL * scale or abs(r[1] - float(m[1])) > G.TOL * scale:
+                return 'point %d: (%r, %r) vs r*(cos, sin) = (%r, %r)' % (k, float(r[0]), float(r[1]), float(m[0]), float(m[1])), (exact, skipped)
+    return None, (exact, skipped)
 
 
 def impl_line(st):
@@ -756,13 +885,19 @@ def run(ctx):
                     nd = st['before'][op[1]]['points'].shape[1]
                     b = [op[2][1]] * nd if op[2][0] == 's' else op[2][1]
                     ml = 'C11 %s %d %s' % (op[0], op[1], rat_list(b))
+                conv = None
                 if ml == 'IMPL':
+                    if op[0] == 'as' and st['status'] == 'ok':
+                        cq = conv_query(st)
+                        if cq is not None:
+                            conv = len(lines)
+                            lines.append(cq)
                     ml = impl_line(st)
                 if isinstance(ml, list):
                     lines += ml
                 else:
                     lines.append(ml)
-                m = {'op': len(lines) - 1, 'impl': op[0] in FROM_IMPL}
+                m = {'op': len(lines) - 1, 'impl': op[0] in FROM_IMPL, 'conv': conv}
                 nlive = len(st['after'])
                 m['show'] = len(lines)
                 lines += ['C11 show %d' % k for k in range(nlive)]
@@ -777,6 +912,8 @@ def run(ctx):
                     ctx.count('two-grids-from-the-same-arrays')
                 if aliased(base_spec):
                     ctx.count('aliased-constructor-inputs')
+            if case.get('pyth'):
+                ctx.count('histories-pythagorean')
             ctx.count('grid:%s-%s-%dD' % (base_spec['sys'], base_spec['kind'], spec_ndim(base_spec)))
             ctx.count('weights:' + ('none' if base_spec['w'] is None else 'array' if isinstance(base_spec['w'], list) else 'scalar'))
             sig = ('history', tuple(o[0] + G_arg(o) for o in case['ops']), base_spec['sys'], base_spec['kind'], spec_ndim(base_spec))
@@ -800,6 +937,15 @@ def run(ctx):
                 ctx.traces_validated += 1
                 if m.get('impl') and st['status'] != 'ok':
                     break
+                if m.get('conv') is not None:
+                    d, (nex, nskip) = compare_conv(out[base_i + m['conv']], st)
+                    ctx.count('as-model:points-compared', nex)
+                    ctx.count('as-model:points-irrational-radius', nskip)
+                    ctx.count('as-model:' + ('c->p' if st['before'][st['op'][1]]['sys'] == 'c' else 'p->c'))
+                    ctx.traces_validated += 1
+                    if d is not None:
+                        ctx.disagree('C11 as_ model', {'case': case, 'op': st['op'], 'diff': d, 'model': out[base_i + m['conv']][:300]})
+                        break
                 if mstatus != st['status']:
                     ctx.disagree('C11 op status', {'case': case, 'op': st['op'], 'impl': st['status'], 'model': ans})
                     break
